@@ -450,6 +450,12 @@ class SeqCheck:
         model = run_model(lines)
         verd_i = run_oracle(m.ORACLE, lines, impl)
         verd_m = run_oracle(m.ORACLE, lines, model)
+        if hasattr(m, "judge_impl"):
+            # a property-specific judgement over groups of implementation observations (e.g. a subscriber's log in a combined scenario
+            # against its log in a solitary one); a failure is a violation of the property by the implementation
+            for (i, why) in m.judge_impl(cases, [parse_obs(x) for x in impl]):
+                if not verd_i[i].startswith("fail"):
+                    verd_i[i] = "fail " + why
         proj = getattr(m, "project", project_default)
         ties = [run_oracle(t, lines, impl) for t in getattr(m, "TIE_ORACLES", ())]
         extras = [run_oracle(t, lines, impl) for t in getattr(m, "EXTRA_ORACLES", ())]     # further statements of the property: a failure is a violation
